@@ -10,8 +10,13 @@ PROPERTY = "C01"
 LEVEL = "exploration"
 BUDGET = {"quick": (640, 150), "thorough": (16000, 1500)}
 RULE = ("seeded scene (potential kind x builder x scan x detectors x exit planes x post-processing) with drawn knobs "
-        "(precision, fft, dask.chunk-size, max_batch, graph shape); reference = eager call on fresh objects; subjects = "
-        "two lazy calls with different knobs computed by SimScheduler (reorder / interleave / release / recompute-lineage). "
+        "(precision, fft, dask.chunk-size, max_batch, graph shape); reference = eager call on fresh objects. Three families: "
+        "pipeline -- two lazy calls with different knobs computed by SimScheduler (reorder / interleave / release / recompute-lineage), "
+        "sometimes jointly with a second pipeline in one graph; race -- a scanned probe in small batches (blocks share detectors, a "
+        "CrystalPotential's unit and module state; often >= 2 annular detectors) under three finely interleaved 2-4 worker schedules, "
+        "pre-emption at random lines or directed at stores into shared state; diamond -- 2-4 results (CTFs with different defocus, annular "
+        "detectors, intensity, diffraction patterns, the waves themselves) derived from ONE lazy exit-wave object (lazy multislice graph or an "
+        "in-memory array wrapped lazily) computed in one graph, optionally a second time, each compared with its eager counterpart. "
         "distinct = (scenario hash, schedule hash); non-trivial = the schedule had >=1 real choice (>=2 ready tasks, "
         "a thread switch or a recompute) and the reference did not raise")
 ASSUMPTIONS = ["dask may run tasks in any dependency-respecting order, concurrently, and may recompute a lineage from roots",
@@ -76,6 +81,163 @@ def pipeline(sc, lazy, max_batch):
     return out
 
 
+def draw_race_scenario(ch):
+    """scenes whose lazy graph has several multislice blocks that share objects (detectors, a CrystalPotential's unit and its
+    integrator, module-level state): scanned probe, small batches, often >= 2 annular detectors with different limits"""
+    knobs = scene.draw_knobs(ch)
+    knobs["max_batch"] = ch.pick([1, 2], "race-max-batch")
+    knobs["chunk_waves"] = ch.pick([1, 2], "race-chunk-waves")
+    pot = scene.draw_potential(ch, kinds=("crystal", "atoms", "fp", "array"), weights=(5, 2, 1, 1), exit_p=0.15, max_configs=2,
+                               crystal_fp_p=0.25)
+    builder = scene.draw_builder(ch, kinds=("probe",))
+    amax = scene.max_valid_angle(pot, builder["energy"])
+    builder["semiangle_cutoff"] = round(min(builder["semiangle_cutoff"], 0.8 * amax), 3)
+    scan = scene.draw_scan(ch, scene.potential_extent(pot), kinds=("custom", "line", "grid"))
+    if scene.scan_size(scan) < 3:
+        scan = {"kind": "custom", "n": ch.range(3, 6, "race-n-pos"), "seed": ch.subseed("race-pos-seed"), "extent": scene.potential_extent(pot)}
+    if ch.bool(0.6, "two-annular"):
+        dets = []
+        for i in range(ch.range(2, 3, "n-annular")):
+            inner = round((0.0 if i == 0 else ch.float(0.1, 0.5, "det-in", 8)) * amax, 3)
+            dets.append({"kind": "annular", "inner": inner, "outer": round(inner + ch.float(0.2, 0.5, "det-w", 6) * amax, 3)})
+        if ch.bool(0.3, "extra-det"):
+            dets += scene.draw_detectors(ch, amax, max_n=1)
+    else:
+        dets = scene.draw_detectors(ch, amax)
+    return {"knobs": knobs, "potential": pot, "builder": builder, "scan": scan, "detectors": dets, "post": None}
+
+
+# ---- diamond family: several results derived from ONE lazy exit-wave object, computed in one graph --------------------------------
+def draw_consumer(ch, amax):
+    k = ch.pick(["ctf", "annular", "intensity", "dp", "raw"], "consumer", weights=[3, 2, 1, 1, 1])
+    c = {"kind": k}
+    if k == "ctf":
+        c.update(defocus=ch.pick([40.0, -80.0, 200.0, 0.0, 15.0], "defocus"), Cs=ch.pick([0.0, 1e4], "Cs"),
+                 then=ch.pick([None, "intensity", "dp"], "then"))
+    elif k == "annular":
+        inner = round(ch.float(0.0, 0.4, "det-in", 8) * amax, 3)
+        c.update(inner=inner, outer=round(inner + ch.float(0.2, 0.5, "det-w", 6) * amax, 3))
+    return c
+
+
+def apply_consumer(w, c, amax):
+    import abtem
+
+    k = c["kind"]
+    if k == "raw":
+        return w
+    if k == "intensity":
+        return w.intensity()
+    if k == "dp":
+        return w.diffraction_patterns(max_angle=None)
+    if k == "annular":
+        return abtem.AnnularDetector(inner=c["inner"], outer=c["outer"]).detect(w)
+    out = w.apply_ctf(abtem.CTF(defocus=c["defocus"], Cs=c["Cs"], semiangle_cutoff=round(min(25.0, 0.8 * amax), 3)))
+    if c["then"] == "intensity":
+        out = out.intensity()
+    elif c["then"] == "dp":
+        out = out.diffraction_patterns(max_angle=None)
+    return out
+
+
+def draw_diamond_scenario(ch):
+    knobs = scene.draw_knobs(ch)
+    pot = scene.draw_potential(ch, kinds=("atoms", "fp", "array", "crystal"), weights=(3, 2, 1, 1), exit_p=0.15, max_configs=3)
+    builder = scene.draw_builder(ch)
+    amax = scene.max_valid_angle(pot, builder["energy"])
+    if builder["kind"] == "probe":
+        builder["semiangle_cutoff"] = round(min(builder["semiangle_cutoff"], 0.8 * amax), 3)
+        scan = scene.draw_scan(ch, scene.potential_extent(pot), kinds=("none", "custom", "grid"))
+    else:
+        scan = {"kind": "none"}
+    return {"family": "diamond", "knobs": knobs, "potential": pot, "builder": builder, "scan": scan, "detectors": [{"kind": "waves"}],
+            "post": None, "amax": amax,
+            # where the shared lazy waves come from: the lazy multislice graph, or an in-memory array wrapped lazily (its dask
+            # blocks are then views of the caller's array)
+            "source": ch.pick(["graph", "memory", "memory-chunked"], "source", weights=[3, 2, 1]),
+            "consumers": [draw_consumer(ch, amax) for _ in range(ch.range(2, 4, "n-consumers"))],
+            "twice": ch.bool(0.5, "compute-twice")}
+
+
+def run_diamond(run):
+    import dask
+    import numpy as np
+
+    ch = run.ch
+    sc = draw_diamond_scenario(ch)
+    run.scenario = sc
+    knobs = sc["knobs"]
+    rtol, atol = oracle.tol_for(knobs["precision"])
+    wg = scene.wave_gpts(sc["potential"])
+    reset_process_state(scene.knob_overrides(knobs, wg))
+    amax = sc["amax"]
+    try:
+        w_ref = pipeline(sc, lazy=False, max_batch="auto")
+        refs = [apply_consumer(w_ref.copy(), c, amax) for c in sc["consumers"]]
+    except (HarnessError, InjectedCrash):
+        raise
+    except Exception as e:  # noqa: BLE001
+        run.invalid = True
+        run.note("reference_raised")
+        sc["reference_error"] = f"{type(e).__name__}: {e} at {tb(e)}"[:300]
+        return
+    sim = run.add_sim(Sim(ch, draw_sim_config(ch)))
+    sim2 = run.add_sim(Sim(ch, draw_sim_config(ch))) if sc["twice"] else None
+    src0 = src = None
+    try:
+        with sim:
+            if sc["source"] == "graph":
+                w = pipeline(sc, lazy=True, max_batch=knobs["max_batch"])
+            else:
+                src = pipeline(sc, lazy=False, max_batch="auto")
+                src0 = np.array(src.array, copy=True)
+                n_ens = len(src.array.shape) - 2
+                if sc["source"] == "memory-chunked" and n_ens:
+                    w = src.ensure_lazy(chunks=(1,) * n_ens + (-1, -1))
+                else:
+                    w = src.ensure_lazy()
+            outs = [apply_consumer(w, c, amax) for c in sc["consumers"]]
+            first = dask.compute(*[o.array for o in outs], optimize_graph=sim.optimize_graph)
+        second = None
+        if sim2 is not None:
+            # the same lazy objects computed a second time (what `.compute()` on a copy, or a later `to_zarr`, does)
+            with sim2:
+                second = dask.compute(*[o.array for o in outs], optimize_graph=sim2.optimize_graph)
+    except (HarnessError, InjectedCrash):
+        raise
+    except Exception as e:  # noqa: BLE001
+        run.violate("fail-together", signature(sc, "raise", {"raised": "lazy", "exc": type(e).__name__, "family": "diamond"}),
+                    f"lazy evaluation of {len(sc['consumers'])} results derived from one lazy exit-wave object raised {type(e).__name__}: {e} "
+                    f"at {tb(e)}; the eager evaluation succeeded")
+        return
+    sc["sim"] = [sim.describe()] + ([sim2.describe()] if sim2 is not None else [])
+    for which, arrays in (("first", first), ("second", second)):
+        if arrays is None:
+            continue
+        for i, (c, r, o, a) in enumerate(zip(sc["consumers"], refs, outs, arrays)):
+            lz = o.copy()
+            lz._array = a
+            for aspect, msg in oracle.compare_results(r, lz, rtol, atol):
+                if aspect == "dtype":
+                    run.note("dtype_differs_lazy_vs_eager")
+                    continue
+                run.violate("lazy-equals-eager", signature(sc, aspect, {"family": "diamond", "consumer": c["kind"], "source": sc["source"],
+                                                                         "compute": which}),
+                            f"result {i} ({c}) of {len(outs)} derived from the same lazy waves (source {sc['source']}), {which} computation: {msg}")
+                break
+    if src is not None and not np.array_equal(np.asarray(src.array), src0, equal_nan=True):
+        run.note("reach_lazy_compute_modified_source_array")
+        run.violate("lazy-equals-eager", signature(sc, "source-modified", {"family": "diamond", "source": sc["source"]}),
+                    "computing lazy results derived from in-memory waves changed the values of those waves (the eager evaluation leaves them "
+                    f"unchanged): max|diff|={float(np.max(np.abs(np.asarray(src.array) - src0))):.3g}")
+    run.digest(*[r.array for r in refs])
+    kinds = [c["kind"] for c in sc["consumers"]]
+    if kinds.count("ctf") >= 2 or kinds.count("annular") >= 2:
+        run.note("reach_same_kind_consumers")
+    if second is not None:
+        run.note("reach_second_compute")
+
+
 def signature(sc, aspect, extra=None):
     p = sc["potential"]
     n_cfg = p.get("fp", {}).get("num_configs", 1) if p["kind"] != "crystal" else p.get("num_frozen_phonons", 1) or 1
@@ -90,8 +252,18 @@ def signature(sc, aspect, extra=None):
 
 def run_one(run):
     ch = run.ch
-    sc = draw_scenario(ch)
+    fam = ch.pick(["pipeline", "race", "diamond"], "family", weights=[5, 3, 2])
+    run.note("family_" + fam)
+    if fam == "diamond":
+        return run_diamond(run)
+    sc = draw_scenario(ch) if fam == "pipeline" else draw_race_scenario(ch)
+    sc["family"] = fam
     run.scenario = sc
+    run_pipeline(run, sc, race=fam == "race")
+
+
+def run_pipeline(run, sc, race):
+    ch = run.ch
     knobs = sc["knobs"]
     rtol, atol = oracle.tol_for(knobs["precision"])
     wg = scene.wave_gpts(sc["potential"])
@@ -109,12 +281,18 @@ def run_one(run):
 
     subs = []
     for j in range(2):
-        mb = knobs["max_batch"] if j == 0 else ch.pick([1, "auto", 2, 4], "max-batch-2")
-        if j == 1:
-            reset_process_state(scene.knob_overrides({**knobs, "chunk_waves": ch.pick([1, None, 4, 2], "chunk-waves-2")}, wg))
-        # a minority of runs are probe runs: tasks are crashed at an arbitrary abTEM line and retried, or re-run on their already
-        # consumed inputs (what a distributed scheduler's retry does); findings of such runs are PROBE lines, never verdicts
-        cfg = draw_sim_config(ch, probes=ch.bool(0.1, "probe-run"))
+        if race:
+            # shared-state hunting: the same many-block graph under two multi-worker schedules, the first pre-empted at stores
+            # into shared state, the second at random lines (or again at stores)
+            mb = knobs["max_batch"]
+            cfg = draw_sim_config(ch, force_threads=True, allow_recompute=False, write_preempt=True if j == 0 else None)
+        else:
+            mb = knobs["max_batch"] if j == 0 else ch.pick([1, "auto", 2, 4], "max-batch-2")
+            if j == 1:
+                reset_process_state(scene.knob_overrides({**knobs, "chunk_waves": ch.pick([1, None, 4, 2], "chunk-waves-2")}, wg))
+            # a minority of runs are probe runs: tasks are crashed at an arbitrary abTEM line and retried, or re-run on their already
+            # consumed inputs (what a distributed scheduler's retry does); findings of such runs are PROBE lines, never verdicts
+            cfg = draw_sim_config(ch, probes=ch.bool(0.1, "probe-run"))
         sim = run.add_sim(Sim(ch, cfg))
         sub = sub_exc = None
         try:
@@ -142,7 +320,7 @@ def run_one(run):
             run.violate("lazy-equals-eager", signature(sc, aspect), f"subject {j} (max_batch={mb}, {sim.describe()}): {msg}")
         subs.append(sub)
     # ---- a third subject: this pipeline computed together with a second, different one in ONE dask graph ------------------
-    if ref is not None and ch.bool(0.25, "joint-compute"):
+    if ref is not None and not race and ch.bool(0.25, "joint-compute"):
         import copy as _copy
         import dask
 
